@@ -78,6 +78,9 @@ OPS = {
                                  [{"name": "@m", "args": ["a1", "a2"], "pattern": [{"mov": ["a1", "a2"]}]}]), rule_path="p2.yaml", input="L1"),
     "bad_config":   dict(rule=_r(["mov"], {"mnemonics-full-match": True, "operands-full-match": True, "sections": "notalist"}), rule_path="p1.yaml", input="L1"),
     "bad_range":    dict(rule=_r(["mov"], {"mnemonics-full-match": True, "valid_addr_range": {"min": "zz", "max": "10"}}), rule_path="p2.yaml", input="L1"),
+    "mnfull_str":   dict(rule=_r(["ov"], {"mnemonics-full-match": "true"}), rule_path="p1.yaml", input="L1"),
+    "opfull_str":   dict(rule=_r([{"mov": ["rax"]}], {"operands-full-match": "false", "mnemonics-full-match": False}), rule_path="p2.yaml", input="L1"),
+    "sections_str": dict(rule=_r(["push"], {"sections": ".text"}), rule_path="p3.yaml", input="BIN", binary=True),
     "missing_in":   dict(rule=_r(["mov"], {"operands-full-match": True}), rule_path="p3.yaml", input="MISSING"),
     "first_bool":   dict(rule=_r([{"mov": ["rax"]}]), rule_path="p1.yaml", input="L1", modes=("bool", "first", False)),
     "first_list":   dict(rule=_r(["push"]), rule_path="p1.yaml", input="L1", modes=("list", "first", False)),
